@@ -75,3 +75,134 @@ Theorem C01_path_unit : forall uw rootval sfx,
   sh_words uw (path_text rootval sfx) = Some [rootval ++ sfx].
 Proof. exact path_unit_words. Qed.
 Print Assumptions C01_path_unit.
+
+(* ---- channel F: define NAME ... endef and the recipe  $(call NAME,words,words...)  ---- *)
+From BFG Require Import Make.MakeCall Make.MakeCallProofs.
+
+(* For every rule name that needs no quoting, every list of argument word lists whose words are non-empty, free
+   of newlines, have balanced parentheses and no comma outside parentheses, and every body whose lines start with a
+   plain word and refer to the parameters 1..9 that the call supplies: bfg9000 writes the call and the define, and
+   GNU Make (arguments split at top-level commas before expansion, each expanded once, bound to the numbered
+   variables, body expanded, one sh command per line, recipe prefix removed) hands sh command lines that sh
+   splits into exactly the declared words, with each parameter replaced by the word list of that argument. *)
+Theorem C01_call_arg : forall uw us v func args body,
+  fname_ok uw (var_name us func) = true ->
+  args_ok args = true ->
+  v [c_comma] = [c_comma] ->
+  body <> [] -> forallb (body_line_ok uw (List.length args)) body = true ->
+  exists text e body_lines,
+    write uw us (call_frag us func (map words_items args)) SynShell QInfo = Some (text, e) /\
+    write_body_lines uw us (map body_line_items body) = Some body_lines /\
+    forall defs, defs (var_name us func) = Some (join_nl body_lines) ->
+      exists lines, recipe_call_lines v defs text = Some lines /\
+        Forall2 (fun l line => sh_words uw line = Some (line_words args l)) body lines.
+Proof. exact call_arg_roundtrip. Qed.
+Print Assumptions C01_call_arg.
+
+(* the two guards named in the design (no comma at all, balanced parentheses) are a special case of the guard *)
+Theorem C01_call_arg_guards : forall w,
+  negb (has_nl w) && match w with [] => false | _ => true end && no_comma w && parens_balanced w = true ->
+  call_word_ok w = true.
+Proof. exact simple_guards. Qed.
+Print Assumptions C01_call_arg_guards.
+
+Definition c01_v : vars := fun n => if str_eqb n [c_comma] then [c_comma] else [].
+Definition c01_body : list (bool * list bitem) :=
+  [(false, [BW (STR "cc"); BW (STR "-o"); BP 2; BP 1]); (true, [BW (STR "touch"); BW (STR "a b")])].
+(* what sh is handed and splits, or the empty list when Make stops with an error *)
+Definition c01_call_run (args : list (list str)) : list (option (list str)) :=
+  let nu := fun _ : char => false in
+  match write nu nu (call_frag nu (STR "RULE") (map words_items args)) SynShell QInfo,
+        write_body_lines nu nu (map body_line_items c01_body) with
+  | Some (text, _), Some bl =>
+    match recipe_call_lines c01_v (fun n => if str_eqb n (STR "RULE") then Some (join_nl bl) else None) text with
+    | Some lines => map (sh_words nu) lines
+    | None => []
+    end
+  | _, _ => []
+  end.
+Definition c01_call_want (args : list (list str)) : list (option (list str)) :=
+  map (fun l => Some (line_words args l)) c01_body.
+
+(* non-vacuity: words with quotes, dollar signs, blanks, hashes, balanced parentheses and a comma inside parentheses *)
+Example C01_call_arg_nonvacuous :
+  let args := [[STR "a.o"; STR "b c.o"; STR "it's"; STR "$x#y"; STR "f(a,b).o"]; [STR "out (1)"]] in
+  args_ok args = true /\ fname_ok (fun _ => false) (var_name (fun _ => false) (STR "RULE")) = true /\
+  forallb (body_line_ok (fun _ => false) (List.length args)) c01_body = true /\
+  c01_call_run args = c01_call_want args.
+Proof. repeat split; vm_compute; reflexivity. Qed.
+
+(* a comma outside parentheses: Make splits the argument at the comma of the written escape (dollar comma), the
+   linker is handed a truncated name (open finding C04-make-call-comma) *)
+Theorem C01_call_arg_comma_refuted : exists args,
+  forallb (forallb (fun w => negb (has_nl w) && parens_balanced w)) args = true /\
+  c01_call_run args <> c01_call_want args.
+Proof. exists [[STR "ma,in.o"]; [STR "prog"]]. split; [reflexivity|]. vm_compute. discriminate. Qed.
+Print Assumptions C01_call_arg_comma_refuted.
+
+(* an unbalanced parenthesis: unterminated call to function, Make stops (open finding C04-make-call-paren) *)
+Theorem C01_call_arg_paren_refuted : exists args,
+  forallb (forallb (fun w => negb (has_nl w) && no_comma w)) args = true /\
+  c01_call_run args <> c01_call_want args.
+Proof. exists [[STR "o(ne.o"]; [STR "prog"]]. split; [reflexivity|]. vm_compute. discriminate. Qed.
+Print Assumptions C01_call_arg_paren_refuted.
+
+(* ---- channel N: nested test drivers (tests.py _build_commands, collapse=True) ---- *)
+From BFG Require Import Make.MakeNested Make.MakeNestedProofs.
+
+(* shell quoting commutes with the doubling of dollar signs: quoting the already written (dollar-doubled) child
+   command line as a whole, as _build_commands does, is the dollar-doubling of the quoted command line; so one
+   expansion by Make removes the doubling at every nesting depth at once *)
+Theorem C01_quote_dollar_commute : forall uw x, quote uw (dollar_esc x) = dollar_esc (quote uw x).
+Proof. exact quote_dollar_esc. Qed.
+Print Assumptions C01_quote_dollar_commute.
+
+(* the literal handed to the parent for a test (any nesting depth) is the dollar-doubling of a text that sh reads,
+   in any context, as ONE word, namely the argument string [arg_of] ... *)
+Theorem C01_nested_collapsed : forall uw us w, wf w = true ->
+  build_collapsed uw us (to_tnode w) = Some (MLit (dollar_esc (sh_text uw w))) /\ img uw (sh_text uw w) (arg_of uw w).
+Proof. intros uw us w H. split; [now apply collapsed_text|now apply sh_text_img]. Qed.
+Print Assumptions C01_nested_collapsed.
+
+(* ... and that argument string delivers the test: by induction on the nesting, a one-word test without children
+   is the word itself, every other test is a command line which one more round of sh splits into exactly its
+   declared words followed by one argument per child, each delivering that child *)
+Theorem C01_nested_delivers : forall uw w, wf w = true -> delivers uw w (arg_of uw w).
+Proof. exact delivers_arg_of. Qed.
+Print Assumptions C01_nested_delivers.
+
+(* top level: the recipe line written for a test (driver) with any tree of tests below it is handed by Make to sh
+   as a text that sh splits into the declared words of the driver followed by one argument per child, and every
+   argument delivers its child through the further rounds of sh (k+1 rounds for a leaf at depth k) *)
+Theorem C01_nested : forall uw us v ws kids line,
+  wf (WNode ws kids) = true -> head_ok uw ws = true ->
+  test_recipe uw us [to_tnode (WNode ws kids)] = Some [line] ->
+  exists args,
+    match recipe_shell_text v line with Some t => sh_words uw t | None => None end = Some (ws ++ args) /\
+    delivers_all uw kids args.
+Proof. exact nested_roundtrip. Qed.
+Print Assumptions C01_nested.
+
+(* non-vacuity: a driver with a multi-word child, a one-word child with a blank, and a nested driver whose leaf
+   carries a quote, a dollar sign and a blank; three rounds of sh, computed *)
+Definition c01_tree : wnode :=
+  WNode [STR "drv"; STR "x y"]
+    [WNode [STR "c1"; STR "$a"; STR "it's"] []; WNode [STR "solo arg"] [];
+     WNode [STR "d2"; STR "-v"] [WNode [STR "leaf"; STR "q'$"; STR "a b"] []]].
+Example C01_nested_nonvacuous :
+  let nu := fun _ : char => false in
+  wf c01_tree = true /\
+  match test_recipe nu nu [to_tnode c01_tree] with
+  | Some [line] =>
+    match (match recipe_shell_text (fun _ => []) line with Some t => sh_words nu t | None => None end) with
+    | Some [w1; w2; a1; a2; a3] =>
+      w1 = STR "drv" /\ w2 = STR "x y" /\ sh_words nu a1 = Some [STR "c1"; STR "$a"; STR "it's"] /\ a2 = STR "solo arg" /\
+      match sh_words nu a3 with
+      | Some [d2; v; b1] => d2 = STR "d2" /\ v = STR "-v" /\ sh_words nu b1 = Some [STR "leaf"; STR "q'$"; STR "a b"]
+      | _ => False
+      end
+    | _ => False
+    end
+  | _ => False
+  end.
+Proof. vm_compute. repeat split. Qed.
